@@ -970,7 +970,12 @@ func (p *balloons) fillableBalloonInstances(blnDef *BalloonDef, fm FillMethod, c
 			}
 		}
 		undoFuncs = append(undoFuncs, func() {
+			// newBalloon() has already taken MinCPUs CPUs: they got the
+			// CPU class of the balloon type and were removed from the
+			// shared idle CPUs of other balloons. Undo all of that.
+			p.forgetCpuClass(newBln)
 			p.freeCpus = p.freeCpus.Union(newBln.Cpus)
+			p.updatePinning(p.shareIdleCpus(newBln.Cpus, cpuset.New())...)
 		})
 		if newBln.MaxAvailMilliCpus(p.freeCpus) < reqMilliCpus {
 			// New balloon cannot be inflated to fit new
